@@ -194,17 +194,26 @@ theorem labelsTight_spec : âˆ€ (ls : List (List Char)) (rest : List Char), ls â‰
 
 def altPoint : P (List (Instr Float)) :=
   fun i => match tag "point" i with
-    | some (_, r) => (parseLabel (space0 r)).map fun (l, r) => ([.declarePoint l], r)
+    | some (_, r) =>
+      match space1 r with
+      | some r' => (parseLabel r').map fun (l, r) => ([.declarePoint l], r)
+      | none => none
     | none => none
 /-- Alternative 2: `circle <label>`. -/
 def altCircle : P (List (Instr Float)) :=
   fun i => match tag "circle" i with
-    | some (_, r) => (parseLabel (space0 r)).map fun (l, r) => ([.declareCircle l], r)
+    | some (_, r) =>
+      match space1 r with
+      | some r' => (parseLabel r').map fun (l, r) => ([.declareCircle l], r)
+      | none => none
     | none => none
 /-- Alternative 3: `arc <label>`. -/
 def altArc : P (List (Instr Float)) :=
   fun i => match tag "arc" i with
-    | some (_, r) => (parseLabel (space0 r)).map fun (l, r) => ([.declareArc l], r)
+    | some (_, r) =>
+      match space1 r with
+      | some r' => (parseLabel r').map fun (l, r) => ([.declareArc l], r)
+      | none => none
     | none => none
 /-- Alternative 4: `<label>.<x|y> = <number>`. -/
 def altFixComp : P (List (Instr Float)) :=
@@ -593,7 +602,7 @@ theorem lineEnd_stopsLabel {rest : List Char} (h : lineEnd rest = true) : stopsL
 syntax "alt_fail" : tactic
 macro_rules
   | `(tactic| alt_fail) => `(tactic| first
-    | (simp [altPoint, altCircle, altArc, tag, space0, parseLabel, isAlphanum]; done)
+    | (simp [altPoint, altCircle, altArc, tag, space0, space1, parseLabel, isAlphanum]; done)
     | exact (labelLed_miss _ rfl).1
     | exact (labelLed_miss _ rfl).2.1
     | exact (labelLed_miss _ rfl).2.2
@@ -1027,7 +1036,7 @@ theorem pr_declarePoint {Î½ : Type} (K : NumCodec Î½) (l : String) (hl : isLabel
     fun X => space0_cons_of_not_space (by decide)]
   unfold alts
   refine firstOf_hit ?_
-  simp [altPoint, tag, space0_space, hs, hp, String.ofList_toList]
+  simp [altPoint, tag, space1, space0_space, hs, hp, String.ofList_toList]
 
 /-- Round trip of the form `circle l`: the printed line is parsed back to the instruction. -/
 theorem pr_declareCircle {Î½ : Type} (K : NumCodec Î½) (l : String) (hl : isLabel l = true)
@@ -1044,7 +1053,7 @@ theorem pr_declareCircle {Î½ : Type} (K : NumCodec Î½) (l : String) (hl : isLabe
   unfold alts
   skip_alts
   refine firstOf_hit ?_
-  simp [altCircle, tag, space0_space, hs, hp, String.ofList_toList]
+  simp [altCircle, tag, space1, space0_space, hs, hp, String.ofList_toList]
 
 /-- Round trip of the form `arc l`: the printed line is parsed back to the instruction. -/
 theorem pr_declareArc {Î½ : Type} (K : NumCodec Î½) (l : String) (hl : isLabel l = true)
@@ -1061,7 +1070,7 @@ theorem pr_declareArc {Î½ : Type} (K : NumCodec Î½) (l : String) (hl : isLabel l
   unfold alts
   skip_alts
   refine firstOf_hit ?_
-  simp [altArc, tag, space0_space, hs, hp, String.ofList_toList]
+  simp [altArc, tag, space1, space0_space, hs, hp, String.ofList_toList]
 
 /-! Label-led forms -/
 
